@@ -200,6 +200,31 @@ def _r14_no_weakening_pragma(ctx):
     ctx.ok("R14", "pragma-api-calls-examined:%d" % n, "", "matcher self-test passed")
 
 
+def _r15_version_read_errors_propagate(ctx):
+    """R15 "no version row" and "the version could not be read" are different answers: in the schema set-up nothing turns the error of
+    a database read into a default (`unwrap_or_default`, `unwrap_or`, `.ok()` on a rusqlite result). A version that does not decode is
+    a newer or foreign schema; treated as absent it is upgraded from zero, after its version row was overwritten."""
+    P = ctx.P
+    n = 0
+    for b in P.bodies.values():
+        root = b.id.split("::{")[0]
+        if not (root.endswith("pool::Pool::setup_db") or "pool::Pool::upgrade_schema" in root) or "::test" in b.id:
+            continue
+        n += 1
+        ctx.saw(b)
+        T = terms(P, b)
+        bad = []
+        for bb, tm in b.calls():
+            last = (callee_name(tm) or "").rsplit("::", 1)[-1]
+            if last in ("unwrap_or_default", "unwrap_or", "unwrap_or_else", "ok") and "Result" in (callee_name(tm) or "") and tm["args"]:
+                a = norm(T.call_args(bb)[0])
+                if any(y[0] == "call" and "rusqlite::" in str(y[1]) for y in subterms(a)):
+                    bad.append("%s at %s" % (last, P.rel(tm["sp"])))
+        ctx.check(not bad, "R15", "schema-read-errors-are-not-defaults:%s" % root.rsplit("::", 1)[-1], ctx.where(b),
+                  "the error of a database read is replaced by a default: %s" % (bad or "-"))
+    ctx.floor("R15", "schema set-up functions", n, 3)
+
+
 def _r13_opening_decodes_no_row(ctx, M, cg):
     """R13 whether the database opens depends on its schema version and on the upgrade steps, never on what the rows hold: no statement
     that a constructor can reach hands lease columns to Rust code (a probe like SELECT 1 is fine). Rows written by an older version —
@@ -235,6 +260,7 @@ def run(ctx):
     M = PoolModel(P, cg)
     _r13_opening_decodes_no_row(ctx, M, cg)
     _r14_no_weakening_pragma(ctx)
+    _r15_version_read_errors_propagate(ctx)
     # "upgrades are additive": a uniqueness constraint added by a schema step makes the upgrade fail on databases that violate it and
     # makes the unchanged INSERT OR REPLACE delete rows (C01's rule about the lease table's constraints)
     ctx.include("C01", rules=("R7",))
